@@ -50,6 +50,8 @@ def api_guard(ctx):
                 continue
             if GUARD_B in gs:
                 seen_err = True
+                if name == "tokenize":
+                    _rec(d, "tokenize|error-only-for-non-empty-input", "!eq(0, len(a2))" in gs, "tokenize returns MatchesEmptyString on a path that has not established that the input is non-empty: tokenize(\"\") must yield no tokens for every regex", loc)
                 _rec(d, name + "|error-propagated", r == PROP and "Regex::matcher" not in cs, "a regex that matches the empty string must make %s return that error (and create no matcher); found %s" % (name, r[:100]), loc)
             elif GUARD_C in gs:
                 seen_ok = True
